@@ -171,3 +171,128 @@ Proof.
   pose proof (i_curblock _ _ _ _ _ _ _ _ _ I) as C. vm_compute in C. injection C as <-.
   pose proof (i_root _ _ _ _ _ _ _ _ _ I 1) as R. vm_compute in R. discriminate.
 Qed.
+
+(* ---- a flush that FAILS ----
+   Anchors: pkg/core/storage/memcached_store.go persist: the cache's two maps are swapped out (the batch in flight),
+   pushes go to fresh maps meanwhile; when PutChangeSet returns an error the batch is put back UNDER what was pushed
+   meanwhile - maps.Copy(tempstore.mem, s.mem), maps.Copy(tempstore.stor, s.stor): newer values win, for both maps -
+   and the next flush writes the union.  A batch is a list in writing order (later entries win), so "the failed batch
+   under the newer pushes" is [old ++ new].  Flushes are serialised (plock): nothing else flushes while one is in
+   flight. *)
+Section FailFlush.
+  Context {St Rt : Type}.
+  Notation batch := (list (key * option (Crash.val St Rt))).
+
+  Inductive fev := FPush (ws : batch) | FFlush | FBegin | FFail.
+  (* what the cache holds after a failed flush: merge (batch in flight) (pushed meanwhile) *)
+  Variable merge : batch -> batch -> batch.
+
+  Fixpoint femit (infl : option batch) (cache : batch) (evs : list fev) : list batch :=
+    match evs with
+    | [] => []
+    | FPush ws :: t => femit infl (cache ++ ws) t
+    | FFlush :: t => match cache with [] => femit infl [] t | _ => cache :: femit infl [] t end
+    | FBegin :: t => femit (Some cache) [] t
+    | FFail :: t => match infl with Some old => femit None (merge old cache) t | None => femit None cache t end
+    end.
+
+  (* flushes are serialised: a flush begins or succeeds only when none is in flight, and only one in flight fails *)
+  Fixpoint fwf (infl : bool) (evs : list fev) : bool :=
+    match evs with
+    | [] => true
+    | FPush _ :: t => fwf infl t
+    | FFlush :: t => negb infl && fwf false t
+    | FBegin :: t => negb infl && fwf true t
+    | FFail :: t => infl && fwf false t
+    end.
+
+  (* the same history with the failing flushes left out *)
+  Fixpoint erase (evs : list fev) : list (@cev St Rt) :=
+    match evs with
+    | [] => []
+    | FPush ws :: t => CPush ws :: erase t
+    | FFlush :: t => CFlush :: erase t
+    | _ :: t => erase t
+    end.
+End FailFlush.
+
+Section FailFlushGood.
+  Context {St Rt : Type}.
+  Notation batch := (list (key * option (Crash.val St Rt))).
+  Definition merge_good (old new : batch) : batch := old ++ new.
+
+  Lemma femit_good_gen (evs : list (@fev St Rt)) : forall infl cache,
+    fwf (match infl with Some _ => true | None => false end) evs = true ->
+    femit merge_good infl cache evs = emit (match infl with Some old => old ++ cache | None => cache end) (erase evs).
+  Proof.
+    induction evs as [|e t IH]; intros infl cache W; [reflexivity|].
+    destruct e as [ws| | |]; simpl in *.
+    - rewrite IH by assumption. destruct infl; [rewrite app_assoc|]; reflexivity.
+    - destruct infl; [discriminate|]. simpl in W.
+      destruct cache; rewrite (IH None []) by assumption; reflexivity.
+    - destruct infl; [discriminate|]. simpl in W.
+      rewrite (IH (Some cache) []) by assumption. rewrite app_nil_r. reflexivity.
+    - destruct infl; [|discriminate]. simpl in W.
+      rewrite (IH None (merge_good l cache)) by assumption. reflexivity.
+  Qed.
+
+  (* failed_flush_transparent: with the failed batch put back under the newer pushes, a history with failing flushes
+     hands the database EXACTLY the batches of the same history without them - keys and values *)
+  Theorem failed_flush_transparent (evs : list (@fev St Rt)) cache :
+    fwf false evs = true -> femit merge_good None cache evs = emit cache (erase evs).
+  Proof. intros W. exact (femit_good_gen evs None cache W). Qed.
+
+  Definition fpush_ok (e : @fev St Rt) : Prop := match e with FPush ws => aligned ws | _ => True end.
+
+  Lemma erase_ok (evs : list (@fev St Rt)) : Forall fpush_ok evs -> Forall push_ok (erase evs).
+  Proof.
+    induction 1 as [|e t He Ht IH]; simpl; [constructor|].
+    destruct e; simpl in *; auto; constructor; auto.
+  Qed.
+
+  (* ... so every later durable state is block-aligned as before *)
+  Corollary failed_flush_aligned (evs : list (@fev St Rt)) :
+    Forall fpush_ok evs -> fwf false evs = true -> Forall aligned (femit merge_good None [] evs).
+  Proof.
+    intros P W. rewrite failed_flush_transparent by assumption.
+    apply block_reaches_cache_atomically; [apply erase_ok; assumption|apply aligned_nil].
+  Qed.
+End FailFlushGood.
+
+(* ---- the wrong merges.  Contract storage lives in a map of its own (KState); a merge that lets the OLDER value win
+   there, and the newer one everywhere else: ---- *)
+Definition is_stor_w {St Rt : Type} (w : key * option (val St Rt)) : bool :=
+  match w with (KState _, _) => true | _ => false end.
+Definition merge_stor_wrong {St Rt : Type} (old new : list (key * option (val St Rt))) :=
+  filter (fun w => negb (is_stor_w w)) (old ++ new) ++ filter is_stor_w (new ++ old).
+Definition merge_dropped {St Rt : Type} (old new : list (key * option (val St Rt))) := new.
+
+(* block 1 pushed, a flush begins, block 2 is pushed while it hangs, it fails, the next flush succeeds *)
+Definition wblk (i : N) : list (key * option (val N N)) :=
+  aer_layer (fun _ => 1) i ++ state_layer (fun _ i => i) (fun s => s) false (i - 1) i.
+Definition wfail : list (@fev N N) := [FPush (wblk 1); FBegin; FPush (wblk 2); FFail; FFlush].
+Definition wdb (mg : _ -> _ -> _) : db N N := apply_all wgen (femit mg None [] wfail).
+
+Lemma failed_flush_wrong_merge_refuted :
+  fwf false wfail = true /\
+  (* the right merge: tip 2, state root 2, contract storage of block 2 *)
+  (get (wdb merge_good) KCurBlock = Some (VNum 2) /\ get (wdb merge_good) (KRoot 2) = Some (VRoot 2) /\
+   get (wdb merge_good) (KState false) = Some (VSt 2)) /\
+  (* the older value wins in the storage map: ONE batch, block-aligned key by key, tip 2, state root 2 - and the
+     contract storage of block 1 *)
+  (map alignedb (femit merge_stor_wrong None [] wfail) = [true] /\
+   get (wdb merge_stor_wrong) KCurBlock = Some (VNum 2) /\ get (wdb merge_stor_wrong) (KRoot 2) = Some (VRoot 2) /\
+   get (wdb merge_stor_wrong) (KState false) = Some (VSt 1)) /\
+  (forall p h hh, ~ Inv (fun _ i => i) (fun s => s) 0 (fun _ => 1) 2000 (wdb merge_stor_wrong) p h hh) /\
+  (* the failed batch dropped: tip 2 without the record of block 1 *)
+  (forall p h hh, ~ Inv (fun _ i => i) (fun s => s) 0 (fun _ => 1) 2000 (wdb merge_dropped) p h hh).
+Proof.
+  split; [reflexivity|]. split; [vm_compute; repeat split|]. split; [vm_compute; repeat split|]. split.
+  - intros p h hh I.
+    pose proof (i_curblock _ _ _ _ _ _ _ _ _ I) as C. vm_compute in C. injection C as <-.
+    pose proof (i_version _ _ _ _ _ _ _ _ _ I) as V. vm_compute in V. injection V as <-.
+    pose proof (i_state _ _ _ _ _ _ _ _ _ I) as S. vm_compute in S. discriminate.
+  - intros p h hh I.
+    pose proof (i_curblock _ _ _ _ _ _ _ _ _ I) as C. vm_compute in C. injection C as <-.
+    pose proof (i_exec _ _ _ _ _ _ _ _ _ I 1) as E. vm_compute in E. discriminate.
+Qed.
